@@ -135,7 +135,9 @@ func load(withCmd bool) (*loaded, error) {
 	}
 	for _, p := range order {
 		ok := initAllow[p.PkgPath]
-		if strings.HasPrefix(p.PkgPath, repoMod) && !strings.HasSuffix(p.PkgPath, "/cmd") {
+		if strings.HasPrefix(p.PkgPath, repoMod) {
+			// (package cmd: only the package-level variable initialisers are
+			// interpreted, its init#k functions - cobra/pflag registration - are skipped)
 			ok = true
 		}
 		if !ok {
